@@ -238,13 +238,16 @@ def run_trace_shard(ctx, st, shard, nshards, record_args, race=False):
     trace = os.path.join(d, "trace.ndjson")
     binder = ctx.binder_race if race else ctx.binder
     rcmd = [binder, "record", fam, "-seed", str(ctx.seed), "-shard", str(shard), "-of", str(nshards)] + [str(x) for x in record_args]
+    renv = dict(os.environ)
+    if race:
+        renv["GORACE"] = "exitcode=3 halt_on_error=1"
     with open(trace, "w") as tf:
-        p = subprocess.run(rcmd, cwd=d, stdout=tf, stderr=subprocess.PIPE, text=True)
+        p = subprocess.run(rcmd, cwd=d, stdout=tf, stderr=subprocess.PIPE, text=True, env=renv)
     if p.returncode != 0:
         # a crash of the real code while being driven is a finding about the code only if the
         # recorder says so (exit 3 = panic / race inside the library under test)
         if p.returncode == 3 or "WARNING: DATA RACE" in (p.stderr or ""):
-            return dict(shard=shard, crashed=True, stderr=p.stderr[-4000:], dir=d, events=0, record_cmd=rcmd[1:])
+            return dict(shard=shard, crashed=True, stderr=p.stderr[:6000], dir=d, events=0, record_cmd=rcmd[1:])
         raise Machinery("stage %s: recorder failed (exit %d): %s" % (st["name"], p.returncode, p.stderr[-2000:]))
     nev = sum(1 for _ in open(trace))
     if nev == 0:
@@ -290,7 +293,9 @@ def stage_trace(ctx, st):
     accepted_traces = 0
     for r in results:
         if r.get("crashed"):
-            ctx.violations.append(dict(what="crash-or-race", detail=r["stderr"][-1500:],
+            err = r["stderr"]
+            k = err.find("WARNING: DATA RACE")
+            ctx.violations.append(dict(what="crash-or-race", detail=(err[k:k + 1800] if k >= 0 else err[-1800:]),
                                        replay=dict(kind="trace", family=st["family"], stage=st["name"], record_cmd=r["record_cmd"], race=race)))
             continue
         events += r["events"]
